@@ -495,7 +495,7 @@ def check(ctx):
     r = ctx.fork("programs")
     thorough = ctx.tier == "thorough"
     max_depth = 8 if thorough else 4
-    n = ctx.budget(2500, 40000)
+    n = ctx.budget(2500, 25000)
     progs = [(k, it, None) for k, it in FIXED]
     for _ in range(n):
         progs.append(gen_program(r, max_depth, thorough))
